@@ -118,6 +118,10 @@ func c16own(p, ops string) (status int, body string, xlate bool) {
 func c16handler(o *c16obs, sc c16scn) RequestHandler {
 	return func(ctx *RequestCtx) {
 		p := string(ctx.Path())
+		if len(p) < 2 {
+			o.notes = append(o.notes, fmt.Sprintf("handler entered with request path %q (request of the ctx was reset under it)", p))
+			p = "/?"
+		}
 		o.hStarted++
 		o.running++
 		if o.running > o.maxRunning {
@@ -131,6 +135,7 @@ func c16handler(o *c16obs, sc c16scn) RequestHandler {
 		}()
 		switch p[1] {
 		case 'f':
+			mcrt.Yield() // a state in which this handler is running (for the invariant)
 			ctx.SetBodyString("ok:" + p)
 		case 't':
 			ctx.TimeoutError("SELF")
@@ -298,7 +303,7 @@ func c16check(sc c16scn, ref []c16resp) func(x *mcrt.Exec) (string, string, stri
 			return "", "", ""
 		}
 		if len(o.notes) > 0 {
-			return "note", "harness-note", o.notes[0]
+			return "note", "handler-sees-foreign-request", o.notes[0]
 		}
 		rs, rest := c16split(o.wire)
 		var cls []string
